@@ -186,6 +186,15 @@ for _p in ("C30", "C32", "C33"):
                                       "fault-free epilogue; DEngine.tla safety model checked with TLC as the base")
     MANIFEST_INFO[_p]["note"] = _NOTE + "; the liveness part is bounded exploration (epilogue of fixed length), not a TLC liveness proof"
 
+MANIFEST_INFO["C11"]["technique"] = ("TLA+/TLC model checking of DEngine.tla, of the client-layer model DEClient.tla (apply lag, read index, "
+                                    "Path A / Path B, lease shortcut; BFS from the settled state) and of Lease.tla + trace validation of "
+                                    "real-node executions (DETrace.tla) on TLC-generated, model-mutant and random schedules")
+MANIFEST_INFO["C12"]["technique"] = ("TLA+/TLC model checking of Lease.tla (explicit clock, lease deviations) + trace validation of real-node "
+                                    "executions with a controlled lease clock (DETrace.tla)")
+MANIFEST_INFO["C33"]["technique"] = ("TLA+/TLC model checking of Compaction.tla (purge safety invariants and the catch-up LIVENESS property under "
+                                    "weak fairness, mutants refuted) + TLA+ trace judge (DETrace.tla: purge monitors, snapshot-vs-log "
+                                    "conformance, catch-up after the recovery epilogue) over executions of real nodes with snapshots enabled")
+
 TIER = {
     "quick": dict(sim_num=60, sim_depth=45, rnd_runs=80, rnd_depth=60, workers=8, mc_timeout=900),
     "thorough": dict(sim_num=1500, sim_depth=60, rnd_runs=1500, rnd_depth=80, workers=16, mc_timeout=3000),
@@ -235,7 +244,7 @@ CLIENT = dict(Node="{1,2,3}", MaxTerm=3, MaxLog=3, MaxMsgs=6, Cap=100, Faults=["
 MCC = {
     # node 3 never leads in these configurations (TwoLeaders): its state machine follows its commit index
     "client-q": dict(CLIENT, Eager="{3}", MaxLevel=13, Lean=True),
-    "client-t": dict(CLIENT, Eager="{3}", MaxLevel=17, Lean=True),
+    "client-t": dict(CLIENT, Eager="{3}", MaxLevel=15, Lean=True),
 }
 R_INVS = ["R_NoStaleRead", "R_AckAfterApply", "R_AckedIsCommittedS", "R_ApplyBehindCommit"]
 READ_DEVS = ["ReadServedOnApplyWithoutConfirmation", "AnyAckConfirmsReads", "VotersIgnoreRecentLeader"]
